@@ -6,20 +6,29 @@
  4. store /verif/seeded/<ID>-<k>/{patch.diff, demo.c, notes.md, meta.json}; remove the worktree"""
 import json, os, subprocess, sys, shutil, re
 pid, k = sys.argv[1], sys.argv[2]
-extra = sys.argv[3:]
+extra = [a for a in sys.argv[3:] if not a.startswith("--")]
+NOSAN = "--nosan" in sys.argv
+TSAN = "--tsan" in sys.argv
+LIMIT = next((a.split("=")[1] for a in sys.argv if a.startswith("--limit=")), None)
 src = "/tmp/seed/%s-out" % pid
 wt = "/tmp/seedeval-%s-%s" % (pid, k)
 def sh(cmd, **kw):
     return subprocess.run(cmd, shell=True, stdout=subprocess.PIPE, stderr=subprocess.STDOUT, text=True, **kw)
 sh("git -C /repo worktree remove --force %s" % wt)
 r = sh("git -C /repo worktree add --detach %s HEAD" % wt); assert r.returncode == 0, r.stdout
-meta = {"property": pid, "variant": int(k), "source": "sub-agent given only the property title and statement", "ran": []}
+meta = {"demo_build": ("no sanitizer" if NOSAN else "tsan" if TSAN else "asan+ubsan") + ((", CBOR_MAX_STACK_SIZE=" + LIMIT) if LIMIT else ""), "property": pid, "variant": int(k), "source": "sub-agent given only the property title and statement", "ran": []}
 def build():
     r = sh("cd %s && cmake -S . -B _build -G Ninja -DWITH_TESTS=ON -DCMAKE_BUILD_TYPE=RelWithDebInfo >/dev/null 2>&1 && cmake --build _build 2>&1 | tail -n 3" % wt)
     return r
 def demo():
-    cmd = ("cd %s && clang -fsanitize=address,undefined -fno-sanitize-recover=all -g -I src -I _build -I _build/src %s/demo%s.c src/cbor.c src/allocators.c "
-           "src/cbor/*.c src/cbor/internal/*.c -lm -lpthread -o /tmp/seedeval-demo-%s-%s 2>&1 | tail -n 5; ASAN_OPTIONS=detect_leaks=1 timeout 60 /tmp/seedeval-demo-%s-%s >/dev/null 2>&1; echo rc=$?") % (wt, src, k, pid, k, pid, k)
+    san = "" if NOSAN else ("-fsanitize=thread -O1" if TSAN else "-fsanitize=address,undefined -fno-sanitize-recover=all")
+    bdir = "_build"
+    pre = ""
+    if LIMIT:
+        bdir = "_blim"
+        pre = "cmake -S . -B _blim -G Ninja -DCBOR_MAX_STACK_SIZE=%s >/dev/null 2>&1; " % LIMIT
+    cmd = ("cd %s && %s clang %s -g -I src -I %s -I %s/src %s/demo%s.c src/cbor.c src/allocators.c "
+           "src/cbor/*.c src/cbor/internal/*.c -lm -lpthread -o /tmp/seedeval-demo-%s-%s 2>&1 | tail -n 5; ASAN_OPTIONS=detect_leaks=1 TSAN_OPTIONS=exitcode=66 timeout 120 /tmp/seedeval-demo-%s-%s >/dev/null 2>&1; echo rc=$?") % (wt, pre, san, bdir, bdir, src, k, pid, k, pid, k)
     r = sh(cmd)
     m = re.search(r"rc=(\d+)", r.stdout)
     return int(m.group(1)) if m else -1, r.stdout
